@@ -271,17 +271,13 @@ def execute(case, ctx):
             want = ref.posterior([idx(a, t)], use)
             if got.shape != want.shape or not close(got, want, atol=1e-8, rtol=1e-6):
                 sig = f"{PROP}:value:{regime}"
-                # explained-by predicates of the two open smoothing findings (everything else in smoothing is strict):
-                #  (a) the backward pass answers slice s >= 1 before it moves on; the answer re-initialises the engine and the
-                #      message carried to the earlier slices is lost (pinned by an existing test) -> marginals of slices below a
-                #      queried slice s >= 1 are wrong;  (b) evidence on a variable of the forward interface is mishandled.
+                # explained-by predicate of the open smoothing finding (everything else in smoothing is strict): the backward pass
+                # answers slice s >= 1 before it moves on; the answer re-initialises the engine and the message carried to the
+                # earlier slices is lost (pinned by an existing test) -> marginals of slices below a queried slice s >= 1 are wrong
                 if op["op"] in ("query", "backward") and T >= 1:
                     later = any(s_ > t and s_ >= 1 for (_, s_) in qs)
-                    ev_src = any(a_ in src for (a_, _) in ev)
                     if later:
                         sig = f"{PROP}:value:smoothing_below_a_queried_slice"
-                    elif ev_src:
-                        sig = f"{PROP}:value:smoothing_with_evidence_on_interface_variable"
                 ctx.fail("marginals", sig, {"q": [a, t], "ev": sorted(ev.items()), "got": np.asarray(got).round(6).tolist(), "want": want.round(6).tolist(),
                                             "inter": case["inter"], "intra": case["intra"], "regime": regime})
                 break
